@@ -224,6 +224,16 @@ func (proof *RangeProof) _computeRootHash() (rootHash []byte, treeEnd bool, err 
 	if len(proof.InnerNodes)+1 != len(proof.Leaves) {
 		return nil, false, errors.Wrap(ErrInvalidProof, "InnerNodes vs Leaves length mismatch, leaves should be 1 more.")
 	}
+	// An inner node of a proof names exactly one sibling. ProofInnerNode.Hash ignores Right whenever
+	// Left is set, while COMPUTEHASH below still follows Right, so a node carrying both would let a
+	// forged leaf verify under an unchanged root (fixed upstream in cosmos/iavl v0.19.4).
+	for _, path := range append([]PathToLeaf{proof.LeftPath}, proof.InnerNodes...) {
+		for _, pin := range path {
+			if len(pin.Left) > 0 && len(pin.Right) > 0 {
+				return nil, false, errors.Wrap(ErrInvalidProof, "inner node with both left and right child hashes")
+			}
+		}
+	}
 
 	// Start from the left path and prove each leaf.
 
